@@ -203,6 +203,23 @@ Proof.
 Qed.
 Print Assumptions C16_quantize.
 
+(* round trip UNDER QUANTISATION: a sequence whose durations and sounding lengths are whole multiples of the grid q (so every
+   onset is on the grid) reads back as `expected es` with quantize = q - through the file and through any history in which
+   isobar saved it and the path was not touched since, whatever the reader object read before *)
+Theorem C16_roundtrip_quantized : forall q es,
+  0 < q -> events_ok es = true -> events_on_grid q es = true -> place_all es 0 <> [] ->
+  read_file_q q [file_of_events es] = ROk (expected es).
+Proof. exact roundtrip_file_q. Qed.
+Print Assumptions C16_roundtrip_quantized.
+
+Theorem C16_history_roundtrip_quantized : forall f pre p es mid q post,
+  0 < q -> events_ok es = true -> events_on_grid q es = true -> place_all es 0 <> [] ->
+  forallb (fun o => negb (touches p o)) mid = true ->
+  nth_error (hist_run f (pre ++ HSave p es :: mid ++ HRead p q :: post)) (count_reads (pre ++ HSave p es :: mid))
+  = Some (Some (ROk (expected es))).
+Proof. exact hist_roundtrip_q. Qed.
+Print Assumptions C16_history_roundtrip_quantized.
+
 (* ------------------------------------------------------------------------------------------ *)
 (** ** Non-vacuity *)
 
@@ -252,3 +269,10 @@ Example C16_history_nonvacuous :
       Some (ROk (mkR [One 40] [One 9] [One (120, 120)] [120])) ]
   /\ rhe 5 2 = 2 /\ rhe 7 2 = 4 /\ rhe 360 240 = 2 /\ rhe 120 240 = 0.
 Proof. vm_compute. repeat split. Qed.
+
+(* ex_events lies on the grids 120, 60, 40 ... (durations 240, 720, 480, 480, 240; lengths 480, 360, 120, 480) but not on 240 *)
+Example C16_roundtrip_quantized_nonvacuous :
+  events_on_grid 120 ex_events = true /\ events_on_grid 240 ex_events = false
+  /\ read_file_q 120 [file_of_events ex_events] = ROk (expected ex_events)
+  /\ read_file_q 240 [file_of_events ex_events] <> ROk (expected ex_events).
+Proof. repeat split; try (vm_compute; reflexivity). vm_compute. discriminate. Qed.
